@@ -54,6 +54,50 @@ Proof. all_flags d; cbn; intros H; try discriminate H; vm_compute; reflexivity. 
 Lemma ok_ch_enc d : canceled d = true -> deleted d = true -> ok_ch (enc d) = true.
 Proof. all_flags d; cbn; intros H1 H2; try discriminate; vm_compute; reflexivity. Qed.
 
+Opaque flags_set_and_clear_loop cancel_and_wait_loop refs_unregister_loop enc fin_new ne_new caw_new has Z.lor Z.testbit.
+
+(* mon_step on each kind of event, for arbitrary values *)
+Section Steps.
+  Variables kt kd : Z.
+  Lemma ms_load l v : mon_step kt kd (mkM l false) (E_load v) = Some (mkM (Some v) false).
+  Proof. reflexivity. Qed.
+  Lemma ms_casw old new :
+    mon_step kt kd (mkM (Some old) false) (E_ DV_CASW old new 1) =
+    (let fin := is_commit (flags_set_and_clear_loop 0 DSF_DELETED (Z.lor DSF_NEEDS_EVENT DSF_CANCEL_WAITER) old) new in
+     if fin || is_commit (cancel_and_wait_loop 0 old kt kd) new || is_commit (refs_unregister_loop 0 0 old) new
+     then Some (mkM (Some new) (fin && has old BIT_WAITER)) else None).
+  Proof.
+    unfold mon_step, E_. cbn [m_wake m_last ek ea eb eok].
+    change (DV_CASW =? DV_LOAD) with false. change (DV_CASW =? DV_OR) with false. change (DV_CASW =? DV_AND) with false.
+    change (DV_CASW =? DV_CASW) with true. change (1 =? 1) with true. cbv zeta. cbn iota.
+    rewrite Z.eqb_refl. reflexivity.
+  Qed.
+  Lemma ms_wake l : mon_step kt kd (mkM l true) (E_ DV_FUTEX_WAKE 0 0 1) = Some (mkM l false).
+  Proof. reflexivity. Qed.
+  Lemma ms_cb v a : mon_step kt kd (mkM (Some v) false) (E_ DVU_CALLOUT_BEGIN a 1 1) =
+    if a =? 0 then (if negb (has v BIT_CANCELED) && negb (has v BIT_RELEASED) then Some (mkM None false) else None)
+    else if a =? 2 then Some (mkM (Some v) false)
+    else (if has v BIT_CANCELED && has v BIT_DELETED then Some (mkM None false) else None).
+  Proof. reflexivity. Qed.
+  Lemma ms_ce l a : mon_step kt kd (mkM l false) (E_ DVU_CALLOUT_END a 0 1) = Some (mkM l false).
+  Proof. reflexivity. Qed.
+  Lemma ms_or l old op : mon_step kt kd (mkM l false) (E_ DV_OR old op 1) =
+    if (op =? DSF_CANCELED) || (op =? DQF_RELEASED) || (op =? DQF_BARRIER_BIT) || (op =? DQF_TARGETED) || (op =? DSF_WLH_CHANGED)
+    then Some (mkM l false) else None.
+  Proof. reflexivity. Qed.
+  Lemma ms_cas old seen new ok :
+    mon_step kt kd (mkM (Some old) false) (E_ DV_CAS seen new ok) =
+    if (new =? Z.lor old DSF_CANCEL_WAITER) && negb (has old BIT_DELETED) && negb (has old BIT_WAITER) then
+      if ok =? 1 then (if seen =? old then Some (mkM (Some new) false) else None) else Some (mkM (Some seen) false)
+    else None.
+  Proof. reflexivity. Qed.
+  Lemma ms_fwait l v : mon_step kt kd (mkM l false) (E_ DV_FUTEX_WAIT v 0 1) =
+    if has v BIT_WAITER && negb (has v BIT_DELETED) then Some (mkM l false) else None.
+  Proof. reflexivity. Qed.
+  Lemma ms_fret l : mon_step kt kd (mkM l false) (E_ DV_FUTEX_WAIT_RET 0 0 1) = Some (mkM l false).
+  Proof. reflexivity. Qed.
+End Steps.
+
 Section Rules.
   Variable k : kind.
   Notation mrun := (mrun k).
@@ -63,31 +107,425 @@ Section Rules.
     mrun (mkM l false) (emit_action f (AFinalize (waiter f) tw) ++ r) = mrun (mkM (Some (fin_new f)) false) r.
   Proof.
     intros D. destruct (has_enc f) as (_ & W & _). unfold emit_action.
-    destruct (waiter f) eqn:Wf; cbn [app]; rewrite r_load;
-      cbn [SrcLife_mon_proofs.mrun]; unfold mon_step; cbn [m_wake m_last E_ ek ea eb eok];
-      change (DV_CASW =? DV_LOAD) with false; change (DV_CASW =? DV_OR) with false; change (DV_CASW =? DV_AND) with false;
-      change (DV_CASW =? DV_CASW) with true; cbn iota;
-      rewrite (fin_commits f D); cbn [orb]; change (1 =? 1) with true; cbn iota; rewrite Z.eqb_refl, W; cbn [andb m_wake m_last].
-    - change (DV_FUTEX_WAKE =? DV_FUTEX_WAKE) with true. cbn iota. reflexivity.
+    destruct (waiter f) eqn:Wf; cbn [app]; rewrite r_load; cbn [SrcLife_mon_proofs.mrun]; rewrite ms_casw; cbv zeta;
+      rewrite (fin_commits f D), W; cbn [orb andb].
+    - rewrite ms_wake. reflexivity.
     - reflexivity.
   Qed.
   Lemma r_ne l f r : mrun (mkM l false) (emit_action f ANeedsEvent ++ r) =
     mrun (mkM (Some (if needs_event f || deleted f then enc f else ne_new f)) false) r.
   Proof.
-    cbn [emit_action]. destruct (needs_event f || deleted f) eqn:E; cbn [app]; rewrite r_load; [reflexivity|].
-    cbn [SrcLife_mon_proofs.mrun]. unfold mon_step. cbn [m_wake m_last E_ ek ea eb eok].
-    change (DV_CASW =? DV_LOAD) with false. change (DV_CASW =? DV_OR) with false. change (DV_CASW =? DV_AND) with false.
-    change (DV_CASW =? DV_CASW) with true. cbn iota.
-    rewrite (ne_commits f E), !orb_true_r. change (1 =? 1) with true. cbn iota. rewrite Z.eqb_refl.
+    unfold emit_action. destruct (needs_event f || deleted f) eqn:E; cbn [app]; rewrite r_load; [reflexivity|].
+    cbn [SrcLife_mon_proofs.mrun]. rewrite ms_casw. cbv zeta. rewrite (ne_commits f E), !orb_true_r.
     assert (X : is_commit (flags_set_and_clear_loop 0 DSF_DELETED (Z.lor DSF_NEEDS_EVENT DSF_CANCEL_WAITER) (enc f)) (ne_new f) &&
                 has (enc f) BIT_WAITER = false).
-    { apply orb_false_iff in E as [E1 E2]. revert E1 E2. all_flags f; cbn; intros; try discriminate; vm_compute; reflexivity. }
+    { apply orb_false_iff in E as [E1 E2]. revert E1 E2. Transparent flags_set_and_clear_loop refs_unregister_loop enc ne_new has Z.lor Z.testbit.
+      all_flags f; cbn [needs_event deleted]; intros; try discriminate; vm_compute; reflexivity. }
     rewrite X. reflexivity.
   Qed.
+  Opaque flags_set_and_clear_loop refs_unregister_loop enc ne_new has Z.lor Z.testbit.
   Lemma r_cb0 v r : ok_eh v = true -> mrun (mkM (Some v) false) (E_ DVU_CALLOUT_BEGIN 0 1 1 :: r) = mrun (mkM None false) r.
-  Proof. intros H. cbn [SrcLife_mon_proofs.mrun]. unfold mon_step, ok_eh in *. cbn [m_wake m_last E_ ek ea]. vm_compute (_ =? _). cbn iota. rewrite H. reflexivity. Qed.
+  Proof. intros H. cbn [SrcLife_mon_proofs.mrun]. rewrite ms_cb. unfold ok_eh in H. rewrite H. reflexivity. Qed.
   Lemma r_cb1 v r : ok_ch v = true -> mrun (mkM (Some v) false) (E_ DVU_CALLOUT_BEGIN 1 1 1 :: r) = mrun (mkM None false) r.
-  Proof. intros H. cbn [SrcLife_mon_proofs.mrun]. unfold mon_step, ok_ch in *. cbn [m_wake m_last E_ ek ea]. vm_compute (_ =? _). cbn iota. rewrite H. reflexivity. Qed.
+  Proof. intros H. cbn [SrcLife_mon_proofs.mrun]. rewrite ms_cb. unfold ok_ch in H. rewrite H. reflexivity. Qed.
+  Lemma r_cb2 v r : mrun (mkM (Some v) false) (E_ DVU_CALLOUT_BEGIN 2 1 1 :: r) = mrun (mkM (Some v) false) r.
+  Proof. reflexivity. Qed.
   Lemma r_ce l a r : mrun (mkM l false) (E_ DVU_CALLOUT_END a 0 1 :: r) = mrun (mkM l false) r.
   Proof. reflexivity. Qed.
 End Rules.
+
+Section Rules2.
+  Variable k : kind.
+  Notation mrun := (mrun k).
+  Lemma r_fin_t l f r : waiter f = true -> deleted f = false ->
+    mrun (mkM l false) (E_load (enc f) :: E_ DV_CASW (enc f) (fin_new f) 1 :: E_ DV_FUTEX_WAKE 0 0 1 :: r) =
+    mrun (mkM (Some (fin_new f)) false) r.
+  Proof. intros W D. pose proof (r_fin k l f false r D) as X. unfold emit_action in X. rewrite W in X. exact X. Qed.
+  Lemma r_fin_f l f r : waiter f = false -> deleted f = false ->
+    mrun (mkM l false) (E_load (enc f) :: E_ DV_CASW (enc f) (fin_new f) 1 :: r) = mrun (mkM (Some (fin_new f)) false) r.
+  Proof. intros W D. pose proof (r_fin k l f false r D) as X. unfold emit_action in X. rewrite W in X. exact X. Qed.
+  Lemma r_ne_c l f r : needs_event f || deleted f = false ->
+    mrun (mkM l false) (E_load (enc f) :: E_ DV_CASW (enc f) (ne_new f) 1 :: r) = mrun (mkM (Some (ne_new f)) false) r.
+  Proof. intros E. pose proof (r_ne k l f r) as X. unfold emit_action in X. rewrite E in X. exact X. Qed.
+End Rules2.
+
+(* ------------------------------------------------------------------ one phase of the lock owner *)
+Definition needs_last (p : opc) : bool := match p with OLatch | OP3 | OP4 => true | _ => false end.
+(* up to the registration callout the monitor has the read of _dispatch_queue_class_invoke *)
+Definition needs_some (p : opc) : bool := match p with OA1 | OA2 | OA3 => true | _ => false end.
+(* what the monitor of the lock owner knows at program point p, the owner's copy of the flags being dqf *)
+Definition prel (p : opc) (dqf : flags) (m : mst) : Prop :=
+  m_wake m = false /\ (needs_some p = true -> exists v, m_last m = Some v) /\ (needs_last p = true -> m_last m = Some (enc dqf)).
+
+Ltac mon_rw k :=
+  repeat first
+    [ rewrite (r_fin_t k) by reflexivity | rewrite (r_fin_f k) by reflexivity | rewrite (r_ne_c k) by reflexivity
+    | rewrite (r_load k) | rewrite (r_ce k) | rewrite (r_cb2 k)
+    | rewrite (r_cb0 k) by (apply ok_eh_enc; auto) | rewrite (r_cb1 k) by (apply ok_ch_enc; reflexivity) ].
+
+Lemma phase_mon k q o i m :
+  let p := phase k q o i in let s := i_src i in
+  prel (i_pc i) (i_dqf i) m ->
+  (i_pc i = OLatch -> canc_or_rel (i_dqf i) = false) ->
+  (released (i_dqf i) = true -> canceled (i_dqf i) = canceled (fl s)) ->
+  existsb is_fin_twice (res_acts p) = false ->
+  (in_cd (i_pc i) = true -> h_ca s = false) ->
+  exists m', mrun k m (emit_phase k o (i_pc i) (fl s) (res_acts p)) = Some m' /\ prel (res_pc p) (res_dqf' p) m'.
+Proof.
+  cbv zeta. intros (Mw & Ml & Mn) Hl Hr Hf Hc. destruct m as [ml mw]. cbn in Mw. subst mw.
+  destruct (phase k q o i) eqn:H; cbn [res_src res_pc res_acts res_dqf'] in *.
+  all: open_i i; destruct k as [kt kd kre]; destruct o as [o1 o2 o3 o4 o5 o6 o7 o8]; unf H; destruct pc.
+  all: cbn [i_pc i_dqf i_src fl] in *.
+  all: split_ifs H.
+  all: try discriminate.
+  all: first [injection H as <- <- | injection H as <- <- <-].
+  (* the finalize / deferred-unregistration CAS is judged on the five bits: all cases *)
+  all: try match goal with
+           | |- context [AFinalize _ _] => try destruct fc; try destruct fw; try destruct fn; try destruct fd; try destruct fr
+           | |- context [ANeedsEvent] => try destruct fc; try destruct fw; try destruct fn; try destruct fd; try destruct fr
+           | |- context [AChBegin] => try destruct fc; try destruct fd; try destruct fr
+           | |- context [ARegCallout _] => try destruct fc; try destruct fr
+           end.
+  all: cbn [existsb is_fin_twice orb] in Hf; try discriminate Hf.
+  all: try (specialize (Hc eq_refl); discriminate Hc).
+  all: try (specialize (Hr eq_refl); discriminate Hr).
+  all: unfold emit_phase; cbn [reads_flags andb flat_map emit_action app needs_event deleted orb].
+  all: first [ specialize (Mn eq_refl); cbn in Mn; subst ml | destruct (Ml eq_refl) as [v0 Ev]; cbn in Ev; subst ml | idtac ].
+  all: match goal with |- exists m', mrun ?K _ _ = _ /\ _ => eexists; split; [mon_rw K; reflexivity|] end.
+  all: unfold prel; cbn; repeat split; intros; try discriminate; eauto.
+Qed.
+
+(* where the owner's copy of the flags comes from *)
+Lemma phase_dqf k q o i :
+  let p := phase k q o i in
+  (res_dqf' p = i_dqf i \/ res_dqf' p = fl (i_src i) \/ res_dqf' p = f0) /\
+  (res_pc p = OLatch -> res_dqf' p = fl (i_src i)).
+Proof.
+  cbv zeta. destruct (phase k q o i) eqn:H; cbn [res_pc res_dqf'].
+  all: open_i i; destruct k as [kt kd kre]; destruct o as [o1 o2 o3 o4 o5 o6 o7 o8]; unf H; destruct pc.
+  all: split_ifs H.
+  all: try discriminate.
+  all: first [injection H as <- <- | injection H as <- <- <-]; cbn; split; intros; try discriminate; auto.
+Qed.
+
+(* ------------------------------------------------------------------ two more facts about the owner's copy of the flags *)
+Definition XInv (g : gst) : Prop :=
+  (o_pc g = OLatch -> canc_or_rel (o_dqf g) = false) /\
+  (released (o_dqf g) = true -> canceled (o_dqf g) = canceled (fl (g_s g))).
+
+Lemma XInv_frame g g' : XInv g -> o_pc g' = o_pc g -> o_dqf g' = o_dqf g ->
+  (released (o_dqf g) = true -> canceled (fl (g_s g')) = canceled (fl (g_s g))) -> XInv g'.
+Proof. intros (X1 & X2) E1 E2 E3. unfold XInv. rewrite E1, E2. split; [exact X1|]. intros R. rewrite (E3 R). apply X2. exact R. Qed.
+
+Lemma step_X g t a g' acts : Inv2 g -> XInv g -> gstep g t a = Some (g', acts) -> XInv g'.
+Proof.
+  intros [HI HH] HX H. pose proof HI as [HG HT]. pose proof HG as (_ & _ & _ & (_ & _ & HD3 & _) & _).
+  assert (NoRel : released (fl (g_s g)) = false -> released (o_dqf g) = true -> False).
+  { intros A B. rewrite (HD3 B) in A. discriminate. }
+  destruct a; unfold gstep in H.
+  - destruct (activated g || released (fl (g_s g))) eqn:E; [discriminate|]. apply orb_false_iff in E as [Na Nr].
+    destruct (activate_src (g_k g) o (g_s g)) as [s1 a] eqn:Ea. injection H as <- _.
+    apply (XInv_frame g); auto. intros R. exfalso. apply (NoRel Nr R).
+  - destruct (released (fl (g_s g))) eqn:Nr; [discriminate|].
+    match type of H with (if ?c then _ else _) = _ => destruct c end; [discriminate|]. injection H as <- _.
+    apply (XInv_frame g); auto. intros R. exfalso. apply (NoRel eq_refl R).
+  - destruct (released (fl (g_s g))); [discriminate|]. injection H as <- _. apply (XInv_frame g); auto.
+  - destruct (released (fl (g_s g))); [discriminate|]. injection H as <- _. apply (XInv_frame g); auto.
+  - match type of H with (if ?c then _ else _) = _ => destruct c eqn:E end; [|discriminate]. injection H as <- _.
+    apply andb_true_iff in E as [E _]. apply andb_true_iff in E as [E _]. apply andb_true_iff in E as [Kr _].
+    destruct HG as ((HA1 & _) & _). destruct (event_du_facts (g_k g) stay_armed (g_s g) HA1 Kr) as (_ & _ & E1 & _).
+    apply (XInv_frame g); auto. cbn. rewrite E1. auto.
+  - match type of H with (if ?c then _ else _) = _ => destruct c end; [|discriminate]. injection H as <- _. apply (XInv_frame g); auto.
+  - destruct (step_hmerge g t g' acts HI HH H) as [_ ->].
+    destruct (m_hup g); [|discriminate]. cbv zeta in H.
+    match type of H with (if ?c then _ else _) = _ => destruct c end.
+    + destruct (finalize (with_pending (g_s g) true)) as [s2 a2] eqn:F. injection H as <- E2.
+      unfold finalize in F. injection F as <- <-. discriminate E2.
+    + injection H as <-. apply (XInv_frame g); auto.
+  - destruct (owner g); [discriminate|]. destruct (activated g); [|discriminate]. cbn [andb] in H.
+    match type of H with (if ?c then _ else _) = _ => destruct c end; [|discriminate]. injection H as <- _.
+    unfold XInv. cbn. split; intros X; discriminate.
+  - (* GPhase *)
+    pose proof (gstep_phase g t o g' acts H) as S. cbv zeta in S.
+    set (i0 := mkI (g_s g) (o_pc g) (o_dqf g) (o_retq g) (o_avoid g)) in *. set (p := phase (g_k g) (o_q g) o i0) in *.
+    destruct S as (Ow & Ea & Es & Epc & Edqf & _).
+    pose proof (phase_facts (g_k g) (o_q g) o i0) as F. cbv zeta in F. fold p in F. cbn [i_src i_pc i_dqf i0] in F.
+    destruct F as (_ & (F2c & _) & _ & _ & F5 & _).
+    pose proof (phase_dqf (g_k g) (o_q g) o i0) as D. cbv zeta in D. fold p in D. cbn [i_src i_pc i_dqf i0] in D.
+    destruct D as (D1 & D2). destruct HX as (X1 & X2).
+    unfold XInv. rewrite Epc, Edqf, Es, F2c. split.
+    + intros P. rewrite (D2 P). destruct (F5 P) as (_ & _ & C & R & _). unfold canc_or_rel. rewrite C, R. reflexivity.
+    + destruct D1 as [D|[D|D]]; rewrite D; [exact X2 | reflexivity | intros X; discriminate].
+  - destruct (cpc g t); try discriminate.
+    destruct (h_ca (g_s g) || released (fl (g_s g)) || is_owner g t) eqn:E; [discriminate|].
+    apply orb_false_iff in E as [E _]. apply orb_false_iff in E as [_ Nr].
+    destruct (m_caw_loop (g_k g) (fl (g_s g))); injection H as <- _; apply (XInv_frame g); auto.
+    intros R. exfalso. apply (NoRel Nr R).
+  - destruct (cpc g t) as [ | oldf newf | | | d | d | | ] eqn:Ec; try discriminate.
+    + destruct (deleted oldf); [injection H as <- _; apply (XInv_frame g); auto|].
+      destruct (waiter newf); [injection H as <- _; apply (XInv_frame g); auto|].
+      destruct (activated g) eqn:Na; cbn [negb] in H.
+      * destruct lock.
+        -- destruct (owner g); [discriminate|]. injection H as <- _. unfold XInv. cbn. split; intros X; discriminate.
+        -- injection H as <- _. apply (XInv_frame g); auto.
+      * destruct (canceled (fl (g_s g))) eqn:Cc; [|discriminate].
+        destruct (activate_src (g_k g) o (g_s g)) as [s1 a] eqn:Ea. injection H as <- _.
+        apply (XInv_frame g); auto. intros R. cbn.
+        destruct HG as ((HA1 & HA2 & _) & _).
+        assert (Ni : installed (g_s g) = false).
+        { destruct (installed (g_s g)) eqn:E; [|reflexivity]. rewrite (HA2 eq_refl) in Na. discriminate. }
+        destruct (activate_src_eff (g_k g) o (g_s g) HA1 Ni) as (_ & _ & E3 & _). rewrite Ea in E3. exact E3.
+    + injection H as <- _. apply (XInv_frame g); auto.
+    + destruct (deleted d); [injection H as <- _; apply (XInv_frame g); auto|].
+      destruct (negb (waiter d)); [|injection H as <- _; apply (XInv_frame g); auto].
+      destruct (flags_eqb (fl (g_s g)) d) eqn:Fe; injection H as <- _; apply (XInv_frame g); auto.
+      apply flags_eqb_eq in Fe. subst d. cbn. auto.
+    + destruct (flags_eqb (fl (g_s g)) d && lock); injection H as <- _; apply (XInv_frame g); auto.
+    + injection H as <- _. apply (XInv_frame g); auto.
+  - destruct (cpc g t); try discriminate. injection H as <- _. apply (XInv_frame g); auto.
+Qed.
+
+Theorem XInv_reach k ev ca rg g : reach k ev ca rg g -> XInv g.
+Proof.
+  intros R. induction R as [s Hi | s [t a] s' R IH [acts Hs]].
+  - subst s. unfold XInv, init_state. cbn. split; intros X; discriminate.
+  - eapply step_X; [apply (Inv2_reach _ _ _ _ _ R) | exact IH | exact Hs].
+Qed.
+
+(* ------------------------------------------------------------------ the link *)
+(* what the monitor of thread t knows, given the model's view of t *)
+Definition mrel (g : gst) (t : Z) (m : mst) : Prop :=
+  m_wake m = false /\
+  (is_owner g t = true -> prel (o_pc g) (o_dqf g) m) /\
+  (forall d, cpc g t = CWTest d -> m_last m = Some (enc d)).
+(* a thread is in one call at a time: a thread inside cancel_and_wait's wait loop neither activates nor invokes the source *)
+Definition thread_ok (g : gst) (t : Z) (a : act) : Prop :=
+  match a with
+  | GActivate _ | GInvoke _ | GPhase _ => forall d, cpc g t <> CWTest d
+  | GCawStep _ _ | GFutexRet => is_owner g t = false     (* the wait loop runs outside the drain lock *)
+  | _ => True
+  end.
+
+Lemma mrel_same g g' t m :
+  mrel g t m -> is_owner g' t = is_owner g t -> o_pc g' = o_pc g -> o_dqf g' = o_dqf g -> cpc g' t = cpc g t -> mrel g' t m.
+Proof. unfold mrel. intros (A & B & C) -> -> -> ->. auto. Qed.
+
+Lemma mrun_activate k l s acts : deleted (fl s) = false ->
+  (acts = [] \/ acts = [AInstall true] \/ acts = [AFinalize (waiter (fl s)) (deleted (fl s))] \/
+   acts = [AInstall false; AFinalize (waiter (fl s)) (deleted (fl s))]) ->
+  exists l', mrun k (mkM l false) (E_load (enc (fl s)) :: flat_map (emit_action (fl s)) acts) = Some (mkM l' false).
+Proof.
+  intros D [E | [E | [E | E]]]; subst acts; rewrite r_load; cbn [flat_map].
+  - eexists; reflexivity.
+  - eexists; reflexivity.
+  - rewrite (r_fin k _ (fl s) (deleted (fl s)) [] D). eexists; reflexivity.
+  - change (emit_action (fl s) (AInstall false) ++ emit_action (fl s) (AFinalize (waiter (fl s)) (deleted (fl s))) ++ [])
+      with (emit_action (fl s) (AFinalize (waiter (fl s)) (deleted (fl s))) ++ []).
+    rewrite (r_fin k _ (fl s) (deleted (fl s)) [] D). eexists; reflexivity.
+Qed.
+
+Lemma activate_acts_shape k o s : canceled (fl s) = true \/ installed s = false ->
+  let acts := snd (activate_src k o s) in
+  acts = [] \/ acts = [AInstall true] \/ acts = [AFinalize (waiter (fl s)) (deleted (fl s))] \/
+  acts = [AInstall false; AFinalize (waiter (fl s)) (deleted (fl s))].
+Proof.
+  intros _. cbv zeta. unfold activate_src. destruct (canceled (fl s)); [right; right; left; reflexivity|].
+  destruct ((k_direct k || k_timer k) && negb (installed s) && c_ovc o); [|left; reflexivity].
+  unfold install. destruct (c_reg_ok o || k_timer k || k_direct k && negb (k_rearm k)); [right; left; reflexivity|].
+  right; right; right. reflexivity.
+Qed.
+
+Theorem step_mon kk ev ca rg g t a g' acts m :
+  reach kk ev ca rg g -> mrel g t m -> thread_ok g t a -> gstep g t a = Some (g', acts) ->
+  exists m', mrun (g_k g) m (emit g t a acts) = Some m' /\ mrel g' t m'.
+Proof.
+  intros Hr (Mw & Mo & Mc) Tok H.
+  pose proof (Inv2_reach _ _ _ _ _ Hr) as [HI HH]. pose proof HI as [HG HT]. pose proof (XInv_reach _ _ _ _ _ Hr) as (X1 & X2).
+  destruct m as [ml mw]. cbn in Mw. subst mw.
+  assert (Same : forall g1, is_owner g1 t = is_owner g t -> o_pc g1 = o_pc g -> o_dqf g1 = o_dqf g -> cpc g1 t = cpc g t ->
+                 mrel g1 t (mkM ml false)).
+  { intros g1 E1 E2 E3 E4. apply (mrel_same g); auto. split; [reflexivity|]. split; assumption. }
+  assert (NotDel : activated g = false -> deleted (fl (g_s g)) = false).
+  { intros Na. destruct HG as ((HA1 & HA2 & _) & _). destruct (deleted (fl (g_s g))) eqn:D; [|reflexivity].
+    destruct HA1 as (S1 & _). destruct (S1 D) as (_ & _ & I & _). rewrite (HA2 I) in Na. discriminate. }
+  assert (NoOwner : activated g = false -> owner g = None).
+  { intros Na. destruct HG as ((_ & _ & HA3 & _) & _). destruct (owner g) eqn:E; [|reflexivity].
+    assert (X : Some z <> None) by discriminate. rewrite (HA3 X) in Na. discriminate. }
+  destruct a; unfold emit; pose proof H as H0; unfold gstep in H.
+  - (* GActivate *)
+    destruct (activated g || released (fl (g_s g))) eqn:E; [discriminate|]. apply orb_false_iff in E as [Na _].
+    destruct (activate_src (g_k g) o (g_s g)) as [s1 a] eqn:Ea. injection H as <- <-.
+    destruct (mrun_activate (g_k g) ml (g_s g) a (NotDel Na)) as [l' X].
+    { change a with (snd (s1, a)). rewrite <- Ea. apply activate_acts_shape. right.
+      destruct HG as ((_ & HA2 & _) & _). destruct (installed (g_s g)) eqn:I; [|reflexivity]. rewrite (HA2 eq_refl) in Na. discriminate. }
+    exists (mkM l' false). split; [exact X|]. split; [reflexivity|]. split.
+    + intros O. unfold is_owner in O. cbn in O. rewrite (NoOwner Na) in O. discriminate.
+    + intros d C. cbn in C. exfalso. apply (Tok d C).
+  - (* GCancel *)
+    destruct (released (fl (g_s g))); [discriminate|].
+    match type of H with (if ?c then _ else _) = _ => destruct c end; [discriminate|]. injection H as <- <-.
+    exists (mkM ml false). split; [reflexivity|]. apply Same; reflexivity.
+  - destruct (released (fl (g_s g))); [discriminate|]. injection H as <- <-.
+    exists (mkM ml false). split; [reflexivity|]. apply Same; reflexivity.
+  - destruct (released (fl (g_s g))); [discriminate|]. injection H as <- <-.
+    exists (mkM ml false). split; [reflexivity|]. apply Same; reflexivity.
+  - match type of H with (if ?c then _ else _) = _ => destruct c end; [|discriminate]. injection H as <- <-.
+    exists (mkM ml false). split; [reflexivity|]. apply Same; reflexivity.
+  - match type of H with (if ?c then _ else _) = _ => destruct c end; [|discriminate]. injection H as <- <-.
+    exists (mkM ml false). split; [reflexivity|]. apply Same; reflexivity.
+  - (* GEvMerge *)
+    destruct (step_hmerge g t g' acts HI HH H0) as [_ ->].
+    destruct (m_hup g); [|discriminate]. cbv zeta in H.
+    match type of H with (if ?c then _ else _) = _ => destruct c end.
+    + destruct (finalize (with_pending (g_s g) true)) as [s2 a2] eqn:F. injection H as <- E2.
+      unfold finalize in F. injection F as <- <-. discriminate E2.
+    + injection H as <-. exists (mkM ml false). split; [reflexivity|]. apply Same; reflexivity.
+  - (* GInvoke *)
+    destruct (owner g) eqn:Ow; [discriminate|]. destruct (activated g); [|discriminate]. cbn [andb] in H.
+    match type of H with (if ?c then _ else _) = _ => destruct c end; [|discriminate]. injection H as <- <-.
+    exists (mkM (Some (enc (fl (g_s g)))) false). split; [reflexivity|]. split; [reflexivity|]. split.
+    + intros _. cbn. unfold prel. cbn. split; [reflexivity|]. split; [intros _; eexists; reflexivity | intros X; discriminate].
+    + intros d C. cbn in C. exfalso. apply (Tok d C).
+  - (* GPhase *)
+    pose proof (gstep_phase g t o g' acts H0) as S. cbv zeta in S.
+    set (i0 := mkI (g_s g) (o_pc g) (o_dqf g) (o_retq g) (o_avoid g)) in *. set (p := phase (g_k g) (o_q g) o i0) in *.
+    destruct S as (Ow & Ea & Es & Epc & Edqf & _ & _ & _ & Eow & _ & _ & _ & _ & _ & _ & _ & _ & Ecpt).
+    assert (Io : is_owner g t = true) by (unfold is_owner; rewrite Ow; apply Z.eqb_refl).
+    pose proof (finalized_once kk ev ca rg g t (GPhase o) g' acts Hr H0) as Fo.
+    destruct HG as ((_ & _ & _ & _ & _ & _ & HA7) & _).
+    destruct (phase_mon (g_k g) (o_q g) o i0 (mkM ml false)) as [m' [R1 R2]].
+    + apply Mo. exact Io.
+    + exact X1.
+    + exact X2.
+    + fold p. rewrite <- Ea. exact Fo.
+    + intros C. apply HA7. exact C.
+    + exists m'. fold p in R1, R2. rewrite <- Ea in R1. split; [exact R1|].
+      split; [destruct R2; assumption|]. split.
+      * intros _. rewrite Epc, Edqf. exact R2.
+      * intros d C. destruct Ecpt as [E|[E1 E2]]; [rewrite E in C; exfalso; apply (Tok d C) | rewrite E2 in C; discriminate].
+  - (* GCawEnter *)
+    destruct (cpc g t) eqn:Ec; try discriminate.
+    match type of H with (if ?c then _ else _) = _ => destruct c eqn:Pre end; [discriminate|].
+    apply orb_false_iff in Pre as [_ No].
+    destruct (m_caw_loop (g_k g) (fl (g_s g))) as [f'|] eqn:L; injection H as <- <-.
+    + destruct (caw_loop_some _ _ _ L) as (W0 & _).
+      eexists. split.
+      * rewrite r_load. cbn [SrcLife_mon_proofs.mrun]. rewrite ms_casw. cbv zeta. rewrite (caw_commits _ _ _ L), orb_true_r. cbn [orb].
+        destruct (has_enc (fl (g_s g))) as (_ & W & _). rewrite W, W0, andb_false_r. reflexivity.
+      * split; [reflexivity|]. split.
+        -- intros O. unfold is_owner in O. cbn in O. unfold is_owner in No. rewrite No in O. discriminate.
+        -- intros d C. cbn in C. rewrite upd_same in C. discriminate.
+    + eexists. split; [reflexivity|]. split; [reflexivity|]. split.
+      * intros O. unfold is_owner in O. cbn in O. unfold is_owner in No. rewrite No in O. discriminate.
+      * intros d C. cbn in C. rewrite upd_same in C. discriminate.
+  - (* GCawStep *)
+    destruct (HT t) as (_ & _ & _ & T4 & _). cbn in Tok.
+    assert (NoO : forall g1 p, owner g1 = owner g -> is_owner (set_cpc g1 t p) t = true -> False).
+    { intros g1 p E O. unfold is_owner in O, Tok. cbn in O. rewrite E in O. rewrite O in Tok. discriminate. }
+    destruct (cpc g t) as [ | oldf newf | | | d | d | | ] eqn:Ec; try discriminate.
+    + destruct (deleted oldf) eqn:Do; cbn [orb].
+      { injection H as <- <-. exists (mkM ml false). split; [reflexivity|]. split; [reflexivity|]. split.
+        - intros O. exfalso. apply (NoO g CRet eq_refl O).
+        - intros d C. cbn in C. rewrite upd_same in C. discriminate. }
+      destruct (waiter newf) eqn:Wn; cbn [orb].
+      { injection H as <- <-. exists (mkM ml false). split; [reflexivity|]. split; [reflexivity|]. split.
+        - intros O. exfalso. apply (NoO g CWLoad eq_refl O).
+        - intros d C. cbn in C. rewrite upd_same in C. discriminate. }
+      destruct (activated g) eqn:Na; cbn [negb] in H.
+      * destruct lock.
+        -- destruct (owner g) eqn:Ow; [discriminate|]. injection H as <- <-.
+           exists (mkM ml false). split; [reflexivity|]. split; [reflexivity|]. split.
+           ++ intros _. cbn. unfold prel. cbn. split; [reflexivity|]. split; intros X; discriminate.
+           ++ intros d C. cbn in C. rewrite upd_same in C. discriminate.
+        -- injection H as <- <-. exists (mkM ml false). split; [reflexivity|]. split; [reflexivity|]. split.
+           ++ intros O. exfalso. apply (NoO g CWLoad eq_refl O).
+           ++ intros d C. cbn in C. rewrite upd_same in C. discriminate.
+      * destruct (canceled (fl (g_s g))) eqn:Cc; [|discriminate].
+        destruct (activate_src (g_k g) o (g_s g)) as [s1 a] eqn:Ea. injection H as <- <-.
+        destruct (mrun_activate (g_k g) ml (g_s g) a (NotDel eq_refl)) as [l' X].
+        { change a with (snd (s1, a)). rewrite <- Ea. apply activate_acts_shape. left. exact Cc. }
+        exists (mkM l' false). split; [exact X|]. split; [reflexivity|]. split.
+        -- intros O. unfold is_owner in O. cbn in O. rewrite (NoOwner eq_refl) in O. discriminate.
+        -- intros d C. cbn in C. rewrite upd_same in C. discriminate.
+    + (* CWLoad *)
+      injection H as <- <-. exists (mkM (Some (enc (fl (g_s g)))) false). split; [reflexivity|]. split; [reflexivity|]. split.
+      * intros O. exfalso. apply (NoO g (CWTest (fl (g_s g))) eq_refl O).
+      * intros d C. cbn in C. rewrite upd_same in C. injection C as <-. reflexivity.
+    + (* CWTest *)
+      pose proof (Mc d eq_refl) as Ml. cbn in Ml. subst ml.
+      destruct (deleted d) eqn:Dd; cbn [orb].
+      { injection H as <- <-. exists (mkM (Some (enc d)) false). split; [reflexivity|]. split; [reflexivity|]. split.
+        - intros O. exfalso. apply (NoO g CRet eq_refl O).
+        - intros d' C. cbn in C. rewrite upd_same in C. discriminate. }
+      destruct (waiter d) eqn:Wd; cbn [negb orb] in *.
+      { injection H as <- <-. exists (mkM (Some (enc d)) false). split; [reflexivity|]. split; [reflexivity|]. split.
+        - intros O. exfalso. apply (NoO g (CWFutex d) eq_refl O).
+        - intros d' C. cbn in C. rewrite upd_same in C. discriminate. }
+      destruct (has_enc d) as (_ & Hw & _ & Hd & _).
+      destruct (flags_eqb (fl (g_s g)) d) eqn:Fe.
+      * apply flags_eqb_eq in Fe. injection H as <- <-. rewrite Fe.
+        eexists. split.
+        -- cbn [SrcLife_mon_proofs.mrun]. rewrite ms_cas, Z.eqb_refl, Hd, Hw, Dd, Wd. cbn [negb andb]. change (1 =? 1) with true. cbn iota.
+           rewrite Z.eqb_refl. reflexivity.
+        -- split; [reflexivity|]. split.
+           ++ intros O. exfalso. apply (NoO (set_src g (with_fl (g_s g) (set_waiter d)) []) (CWFutex (set_waiter d)) eq_refl O).
+           ++ intros d' C. cbn in C. rewrite upd_same in C. discriminate.
+      * injection H as <- <-. eexists. split.
+        -- cbn [SrcLife_mon_proofs.mrun]. rewrite ms_cas, Z.eqb_refl, Hd, Hw, Dd, Wd. cbn [negb andb]. change (0 =? 1) with false. cbn iota. reflexivity.
+        -- split; [reflexivity|]. split.
+           ++ intros O. exfalso. apply (NoO g (CWTest (fl (g_s g))) eq_refl O).
+           ++ intros d' C. cbn in C. rewrite upd_same in C. injection C as <-. reflexivity.
+    + (* CWFutex *)
+      destruct (T4 d eq_refl) as [Wd Dd]. destruct (has_enc d) as (_ & Hw & _ & Hd & _).
+      assert (X : mrun (g_k g) (mkM ml false) [E_ DV_FUTEX_WAIT (enc d) 0 1] = Some (mkM ml false)).
+      { cbn [SrcLife_mon_proofs.mrun]. rewrite ms_fwait, Hw, Hd, Wd, Dd. reflexivity. }
+      destruct (flags_eqb (fl (g_s g)) d && lock); injection H as <- <-; exists (mkM ml false); (split; [exact X|]);
+        (split; [reflexivity|]); split.
+      * intros O. exfalso. unfold is_owner in O, Tok. cbn in O. rewrite O in Tok. discriminate.
+      * intros d' C. cbn in C. rewrite upd_same in C. discriminate.
+      * intros O. exfalso. apply (NoO g CWLoad eq_refl O).
+      * intros d' C. cbn in C. rewrite upd_same in C. discriminate.
+    + (* CRet *)
+      injection H as <- <-. exists (mkM ml false). split; [reflexivity|]. split; [reflexivity|]. split.
+      * intros O. exfalso. unfold is_owner in O, Tok. cbn in O. rewrite O in Tok. discriminate.
+      * intros d' C. cbn in C. rewrite upd_same in C. discriminate.
+  - (* GFutexRet *)
+    cbn in Tok. destruct (cpc g t) eqn:Ec; try discriminate. injection H as <- <-.
+    exists (mkM ml false). split; [reflexivity|]. split; [reflexivity|]. split.
+    + intros O. exfalso. unfold is_owner in O, Tok. cbn in O. rewrite O in Tok. discriminate.
+    + intros d' C. cbn in C. rewrite upd_same in C. discriminate.
+Qed.
+
+(* the monitors of the other threads are not concerned by a step of t *)
+Ltac brk H :=
+  repeat match type of H with
+         | (if ?c then _ else _) = _ => destruct c
+         | (match ?c with _ => _ end) = _ => destruct c
+         | (let '(_, _) := ?c in _) = _ => destruct c
+         end; try discriminate.
+
+Lemma gstep_other g t a g' acts u : gstep g t a = Some (g', acts) -> u <> t ->
+  cpc g' u = cpc g u /\ (is_owner g' u = true -> is_owner g u = true /\ o_pc g' = o_pc g /\ o_dqf g' = o_dqf g).
+Proof.
+  intros H Ne.
+  assert (Neb : (t =? u) = false) by (apply Z.eqb_neq; congruence).
+  destruct a.
+  9: { pose proof (gstep_phase g t o g' acts H) as S. cbv zeta in S.
+       destruct S as (Ow & _ & _ & _ & _ & _ & _ & _ & Eow & _ & _ & _ & _ & _ & _ & _ & Ecpo & _).
+       split; [apply Ecpo; exact Ne|]. intros O. exfalso. unfold is_owner in O. rewrite Eow in O.
+       destruct (phase _ _ _ _); [rewrite Ow, Neb in O; discriminate | discriminate]. }
+  all: unfold gstep in H; cbv zeta in H; brk H; injection H as <- _; cbn; unfold is_owner; cbn; rewrite ?upd_other by exact Ne;
+    (split; [reflexivity|]); intros O; try rewrite Neb in O; try discriminate O; auto.
+Qed.
+
+Theorem step_mon_other g t a g' acts u m : gstep g t a = Some (g', acts) -> u <> t -> mrel g u m -> mrel g' u m.
+Proof.
+  intros H Ne (A & B & C). destruct (gstep_other g t a g' acts u H Ne) as [Ec Eo].
+  split; [exact A|]. split.
+  - intros O. destruct (Eo O) as (O' & E1 & E2). rewrite E1, E2. apply B. exact O'.
+  - intros d. rewrite Ec. apply C.
+Qed.
+
+(* the monitor of a thread that has done nothing yet *)
+Lemma mrel_init k ev ca rg t : mrel (init_state k ev ca rg) t (mkM None false).
+Proof. split; [reflexivity|]. split; intros; discriminate. Qed.
